@@ -25,6 +25,11 @@ HINTS = {
         "meeting point of two built-in fangs or of a fang and the automatic HEAD / OPTIONS / 404 handling, Unicode and case "
         "folding, and sizes just past an internal buffer (1 KiB request buffer, header tables). The change must not depend on "
         "the `ws`, `openapi` or non-tokio runtime features.",
+    18: "Look at what no earlier author touched (read their list first). Candidates: behaviour under a non-default environment "
+        "(OHKAMI_* variables), builder options and public methods nobody used yet, the second and later uses of something a "
+        "first use initialises, arithmetic at the edges of an internal buffer or table, an interim or automatic response "
+        "(HEAD, OPTIONS, 404, 100/408/413/431) meeting a fang or a keep-alive connection, and helpers in ohkami_lib that "
+        "several features share. The change must not depend on the `ws`, `openapi` or non-tokio runtime features.",
     16: "Prefer a change made of TWO cooperating edits in different functions or files that each look harmless alone, "
         "or an optimisation (cache, fast path, buffer reuse, early exit) that is right for ordinary inputs and wrong "
         "for one family of inputs or one order of events.",
